@@ -3,6 +3,6 @@ CONSTANTS
   KStep = 1
   MaxW = 32
   MaxL = 4
-INVARIANTS Off0 Scale0 Scale1 Recentre Closed MonoIso Companions ViewIff ViewLayout FramesTimesN RoundTripId WriteThrough BoxedOK
+INVARIANTS Off0 Scale0 Scale1 UnitySat Recentre Closed MonoIso Companions ViewIff ViewLayout FramesTimesN RoundTripId WriteThrough BoxedOK
 POSTCONDITION AllTaken
 CHECK_DEADLOCK FALSE
